@@ -210,7 +210,7 @@ def spec_drift(spec, cur, cosmetics=None):
 # part 3: real reports against the specification rendered on the snapshot, formatted by the Coq model
 # ---------------------------------------------------------------------------------------------------------
 OVERRIDES = [('Net Electricity Production', 'kW'), ('Pumping Power', 'kW'), ('Heat Extracted', 'kW'), ('Bottom-hole temperature', 'degF'),
-             ('Net Electricity Production', 'GW'), ('Pumping Power', 'hp'), ('Bottom-hole temperature', 'K'), ('Heat Extracted', 'GW')]
+             ('Net Electricity Production', 'GW'), ('Pumping Power', 'W'), ('Bottom-hole temperature', 'degK'), ('Heat Extracted', 'GW')]
 
 
 def unit_override_lines(i):
